@@ -56,7 +56,7 @@ static bool kr_area_cb(const mi_heap_t*, const mi_heap_area_t* a, void* block, s
   if (I->ref && I->ref >= (const uint8_t*)a->blocks && I->ref < (const uint8_t*)a->blocks + a->reserved) { I->ref_used = a->used; I->ref_cap = cap; }
   return true;
 }
-static mi_heap_t* kr_heap(int self, const Op& op) { int h = (int)op.num("h", 1); return (h > 0 && h < 4 && M.heap_alive[self][h]) ? M.heaps[self][h] : nullptr; }
+static mi_heap_t* kr_heap(int self, const Op& op) { int h = (int)op.num("h", 1); if (h == 0) return mi_heap_get_backing(); return (h > 0 && h < 4 && M.heap_alive[self][h]) ? M.heaps[self][h] : nullptr; }
 static bool kr_quiet(int self) { if (!KR.q.empty()) return false; for (int t = 0; t < S.nthreads; t++) if (t != self && S.vt[t].state != 2 && !(S.vt[t].waiting && !(S.vt[t].can_go && S.vt[t].can_go()))) return false; return true; }
 static bool kr_sync(int self) {   // wait until nothing is posted and every helper is idle
   S.vt[self].waiting = true; S.vt[self].can_go = [self]() { return kr_quiet(self); };
@@ -216,6 +216,7 @@ static Case gen_pc_program(Chooser& ch) {
   static const std::vector<size_t> sizes = { 16, 48, 200, 1000, 8*KiB, 64*KiB, 100*KiB }; static const std::vector<size_t> lives = { 1, 4, 16, 64 };
   size_t rounds = (size_t)ch.range(600, 2500); size_t n = ch.of(sizes), live = ch.of(lives);
   if (ch.chance(1, 3)) { size_t per = (n <= 8*KiB ? 64*KiB / (n + 16) : (n <= 64*KiB ? 512*KiB / n : 1)); if (per >= 2 && per <= 200) live = per + ch.range(0, 2); }   // about one page plus one block in flight
+  if (ch.chance(1, 6)) c.push_back(Op("opt").s("name", "target_segments_per_thread").u("v", ch.chance(1, 2) ? 2 : 4));
   c.push_back(Op("PCP").u("t", 0).u("rounds", rounds).u("live", live).u("n", n));
   c.push_back(Op("PCC").u("t", 1));
   c.push_back(Op("J").u("t", 0)); c.push_back(Op("Q").u("t", 0));
@@ -229,24 +230,28 @@ static Case gen_keeper_program(Chooser& ch) {
   c.push_back(Op("HN").u("t", 0).u("h", 1));
   for (int t = 1; t <= helpers; t++) c.push_back(Op("SERVE").u("t", (uint64_t)t));
   auto O = [&](Op op) { op.u("t", 0); c.push_back(op); };
+  // the heap may be deleted half-way (its pages, some of them in the full queue, move to the backing heap: h=0 from then on)
+  uint64_t hcur = 1; int rdel = ch.chance(1, 3) ? (int)ch.range(0, (uint64_t)R - 1) : -1;
+  if (ch.chance(1, 6)) c.insert(c.begin(), Op("opt").s("name", "target_segments_per_thread").u("v", ch.chance(1, 2) ? 2 : 4));
   if (ch.chance(1, 2)) {   // prologue: the only block of the only page of the class is freed remotely and handled by the owner (the page is retired, not freed, and used again below)
     int s = NSLOT - 1; O(Op("A").u("s", (uint64_t)s).u("n", n).u("h", 1)); O(Op("POST").u("s", (uint64_t)s).u("h", 1)); O(Op("SY"));
     if (ch.chance(1, 3)) O(Op("HC").u("h", 1).u("force", 0)); else O(Op("GN").u("h", 1).u("k", ch.range(100, 130)).u("n", ch.chance(1, 2) ? 5000 : 70000)); }
   for (int r = 0; r < R; r++) {
     int base = (r % regions) * W; int a0 = (int)ch.range(2, 8); int keeper = base + (int)ch.pick((size_t)a0);
-    for (int i = 0; i < a0; i++) O(Op("A").u("s", (uint64_t)(base + i)).u("n", n).u("h", 1));
+    for (int i = 0; i < a0; i++) O(Op("A").u("s", (uint64_t)(base + i)).u("n", n).u("h", hcur));
     int ne = (int)ch.pick(4); if (ne == 3) ne = 1;
-    for (int e = 0; e < ne; e++) { int s = base + (int)ch.pick((size_t)a0); if (s != keeper) O(Op("POST").u("s", (uint64_t)s).u("h", 1)); }
+    for (int e = 0; e < ne; e++) { int s = base + (int)ch.pick((size_t)a0); if (s != keeper) O(Op("POST").u("s", (uint64_t)s).u("h", hcur)); }
     if (ne > 0 && ch.chance(3, 4)) O(Op("SY"));
-    if (ch.chance(1, 3)) O(Op("HC").u("h", 1).u("force", 0)); else if (ch.chance(1, 4)) O(Op("GN").u("h", 1).u("k", ch.range(30, 120)).u("n", 5000));
-    O(Op("FILL").u("ref", (uint64_t)keeper).u("base", (uint64_t)base).u("max", (uint64_t)(W - 12)).u("extra", ch.pick(4)).u("n", n).u("h", 1));
-    Op post("POST"); post.u("lo", (uint64_t)base).u("hi", (uint64_t)(base + W)).u("keep", (uint64_t)keeper).u("h", 1); if (ch.chance(1, 4)) post.u("keep2", (uint64_t)(base + (int)ch.pick((size_t)W - 12))); O(post);
-    if (r >= K) { int ob = ((r - K) % regions) * W; O(Op("POST").u("lo", (uint64_t)ob).u("hi", (uint64_t)(ob + W)).u("h", 1)); }
+    if (ch.chance(1, 3)) O(Op("HC").u("h", hcur).u("force", 0)); else if (ch.chance(1, 4)) O(Op("GN").u("h", hcur).u("k", ch.range(30, 120)).u("n", 5000));
+    O(Op("FILL").u("ref", (uint64_t)keeper).u("base", (uint64_t)base).u("max", (uint64_t)(W - 12)).u("extra", ch.pick(4)).u("n", n).u("h", hcur));
+    if (r == rdel && hcur == 1) { O(Op("HD").u("h", 1)); hcur = 0; }
+    Op post("POST"); post.u("lo", (uint64_t)base).u("hi", (uint64_t)(base + W)).u("keep", (uint64_t)keeper).u("h", hcur); if (ch.chance(1, 4)) post.u("keep2", (uint64_t)(base + (int)ch.pick((size_t)W - 12))); O(post);
+    if (r >= K) { int ob = ((r - K) % regions) * W; O(Op("POST").u("lo", (uint64_t)ob).u("hi", (uint64_t)(ob + W)).u("h", hcur)); }
     if (ch.chance(3, 4)) O(Op("SY"));
-    if (ch.chance(1, 3)) O(Op("HC").u("h", 1).u("force", ch.chance(1, 8)));
-    if (ch.chance(1, 2) || r == R - 1) O(Op("RP").u("h", 1).u("n", n));
+    if (ch.chance(1, 3)) O(Op("HC").u("h", hcur).u("force", ch.chance(1, 8)));
+    if (ch.chance(1, 2) || r == R - 1) O(Op("RP").u("h", hcur).u("n", n));
   }
-  O(Op("POST").u("lo", 0).u("hi", (uint64_t)NSLOT).u("h", 1)); O(Op("SY")); O(Op("QH").u("h", 1)); O(Op("STOP")); O(Op("J"));
+  O(Op("POST").u("lo", 0).u("hi", (uint64_t)NSLOT).u("h", hcur)); O(Op("SY")); O(Op("QH").u("h", hcur)); O(Op("STOP")); O(Op("J"));
   for (size_t i = 0; i < c.size(); i++) c[i].u("i", i);
   return c;
 }
@@ -270,6 +275,7 @@ static Case gen_bitmap_program(Chooser& ch) {
 static Case gen_arena_program(Chooser& ch) {
   Case c; c.push_back(Op("AR").u("size", (size_t)ch.range(66, 130) * 32*MiB));
   static const std::vector<long> pd = { 0, 1, 10 }; c.push_back(Op("opt").s("name", "purge_delay").i("v", ch.of(pd)));
+  if (ch.chance(1, 3)) c.push_back(Op("opt").s("name", "purge_decommits").u("v", 0));   // purge by reset: the purge path that does not decommit
   int T = (int)ch.range(2, 3); int ns = (int)ch.range(4, 14); int rank = 0; struct Ev { int rank; Op op; }; std::vector<Ev> ev;
   for (int s = 0; s < ns; s++) { int t = (int)ch.pick((size_t)T); size_t n = ch.chance(1, 3) ? (size_t)ch.range(1, 4000) : (size_t)(ch.chance(1, 4) ? ch.range(3, 5) : ch.range(1, 2)) * 32*MiB - 2*MiB - (size_t)ch.range(0, 8) * MiB;
     ev.push_back({ rank++, Op("AA").u("t", (uint64_t)t).u("s", (uint64_t)s).u("n", n) });
